@@ -37,7 +37,7 @@ func init() {
 		MinEvals:        floor(150000, 4000000),
 		MinDistinct:     floor(20000, 500000),
 		RequiredCells: func(string) []string {
-			cells := []string{"purity/policy-match/history", "purity/policy-match/concurrent", "grid", "grid/int-vs-int", "grid/float-vs-float", "grid/int-vs-float", "grid/float-vs-int", "grid/both-beyond-2^53", "a/true", "a/false", "a/map-literal-reordered", "a/link-same-hash-other-codec", "a/float-opposite-huge", "b/and", "b/or", "b/all", "b/any", "c/and", "c/all", "d", "e", "f/missing-required", "f/missing-optional", "data/nan-inf", "data/empty-collections", "via/constructors", "via/ipld", "via/dagjson"}
+			cells := []string{"purity/policy-match/history", "purity/policy-match/concurrent", "grid", "grid/int-vs-int", "grid/float-vs-float", "grid/int-vs-float", "grid/float-vs-int", "grid/both-beyond-2^53", "a/true", "a/false", "a/map-literal-reordered", "a/link-same-hash-other-codec", "a/float-opposite-huge", "b/and", "b/or", "b/all", "b/any", "c/and", "c/all", "d", "e", "f/missing-required", "f/missing-optional", "data/nan-inf", "data/empty-collections", "via/constructors", "via/ipld", "via/dagjson", "twins", "twins/top", "twins/and", "twins/or"}
 			for _, k := range ref.AllKinds {
 				cells = append(cells, "a/kind/"+k)
 			}
@@ -401,6 +401,7 @@ func runC11(w *mon.W) {
 		return
 	}
 	c11NumericGrid(w)
+	c11Twins(w)
 	c11KindGrid(w)
 	c11DeepNesting(w)
 	r := w.Rng
@@ -1085,4 +1086,82 @@ func hasIntegralFloat(v ref.V) bool {
 		}
 	}
 	return false
+}
+
+// c11Twins: statements that PRINT alike - the same operator and selector over the integer n and
+// the float n, over values that render identically (non-finite floats), over a string and the
+// number it spells - side by side in one list: at top level, under and, under or, in both
+// orders. Each is a statement of its own; the verdict is the classical one.
+func c11Twins(w *mon.W) {
+	sel := ref.Sel{{Kind: ref.SField, Name: "v"}}
+	pairs := [][2]ref.V{
+		{ref.Int(1), ref.Float(1)}, {ref.Int(10), ref.Float(10)}, {ref.Int(0), ref.Float(0)}, {ref.Int(-3), ref.Float(-3)},
+		{ref.Int(1 << 40), ref.Float(1 << 40)}, {ref.Int(5), ref.Str("5")}, {ref.Bool(true), ref.Str("true")}, {ref.Str("a"), ref.Bytes([]byte("a"))},
+	}
+	datas := func(a, b ref.V) []ref.V {
+		out := []ref.V{a, b}
+		if a.K == ref.KInt {
+			out = append(out, ref.Int(a.I+40), ref.Float(float64(a.I)+40), ref.Int(a.I-40), ref.Float(float64(a.I)-0.5))
+		}
+		return out
+	}
+	idx := 0
+	for _, pr := range pairs {
+		for _, kind := range []string{"==", ">=", "<", ">", "<="} {
+			if kind != "==" && !(pr[0].IsNumber() && pr[1].IsNumber()) {
+				continue
+			}
+			for _, shape := range []string{"top", "and", "or", "not-and", "all-any"} {
+				for _, swap := range []bool{false, true} {
+					idx++
+					if !w.Mine(idx) {
+						continue
+					}
+					a, b := ref.Stmt{Kind: kind, Sel: sel, Val: pr[0]}, ref.Stmt{Kind: kind, Sel: sel, Val: pr[1]}
+					if swap {
+						a, b = b, a
+					}
+					var p ref.Policy
+					switch shape {
+					case "top":
+						p = ref.Policy{a, b}
+					case "and":
+						p = ref.Policy{{Kind: "and", Subs: []ref.Stmt{a, b}}}
+					case "or":
+						p = ref.Policy{{Kind: "or", Subs: []ref.Stmt{a, b}}}
+					case "not-and":
+						p = ref.Policy{{Kind: "not", Subs: []ref.Stmt{{Kind: "and", Subs: []ref.Stmt{a, b}}}}}
+					default:
+						p = ref.Policy{{Kind: "or", Subs: []ref.Stmt{{Kind: "and", Subs: []ref.Stmt{a, a}}, b, b}}}
+					}
+					bp, ok := c11Build(w, p)
+					if !ok {
+						continue
+					}
+					for _, x := range datas(pr[0], pr[1]) {
+						d := ref.Map(ref.E("v", x))
+						t, _ := ref.EvalPolicy(p, d)
+						if t == ref.Unresolved {
+							continue
+						}
+						want := t == ref.True
+						for via := 0; via < 3; via++ {
+							got, ok := c11Match(w, bp, d.Node(), via)
+							if !ok {
+								continue
+							}
+							w.Cover("twins")
+							w.Cover("twins/" + shape)
+							w.Distinct("twins", kind, shape, swap, pr[0].String(), pr[1].String(), x.String(), via)
+							if got.match != want || got.partial != want {
+								w.Violate(fmt.Sprintf("a/twins/%s/%s/%s-and-%s/match=%v", shape, kind, pr[0].K, pr[1].K, got.match),
+									fmt.Sprintf("policy %s on %s: Match=%v PartialMatch=%v, the classical reading says %v (both look-alike statements count)", p, d, got.match, got.partial, want),
+									map[string]any{"policy": p.String(), "data": d.String(), "match": got.match, "partial": got.partial, "model": want, "form": via})
+							}
+						}
+					}
+				}
+			}
+		}
+	}
 }
